@@ -130,6 +130,8 @@ define_language! {
         Neg(AppliedId) = "neg",
         Tag(u32, Slot, AppliedId) = "tag",
         Scope(bool, Bind<AppliedId>) = "scope",
+        Lbl(Symbol, u32, AppliedId) = "lbl",
+        Pr(bool, i64) = "pr",
         At(Slot) = "at",
         Lit(i64),
         Flag(bool),
@@ -269,6 +271,10 @@ impl LangId {
                     op("neg", &[Kid(0)]),
                     op("tag", &[PayU32, SlotF, Kid(0)]),
                     op("scope", &[Field::PayOther(&["true", "false"]), Kid(1)]),
+                    // two payload fields in one variant; the first of `lbl` is sometimes spelled like a term of the language
+                    // (a single character is a `Ch` literal), sometimes not; the second always is (a number is a `Lit`)
+                    op("lbl", &[PaySym, PayU32, Kid(0)]),
+                    op("pr", &[Field::PayOther(&["true", "false"]), Field::PayOther(&["7", "-3", "0", "123456789012"])]),
                 ],
             },
             LangId::Fp => LangSig {
